@@ -608,7 +608,7 @@ fn c07_checkpoint(sess: &mut Session, rep: &mut Report, done: &mut Vec<Step>) ->
 /// A listing that is in progress while a handle changes a stream's length: entries handed
 /// out after the write must describe the stream as it is then (scratch storage, removed
 /// again; the session's model is not involved).
-fn listing_across_a_write_episode(sess: &mut Session, rng: &mut Rng, rep: &mut Report) -> Result<(), Fail> {
+pub fn listing_across_a_write_episode(sess: &mut Session, rng: &mut Rng, rep: &mut Report) -> Result<(), Fail> {
     use std::io::{Seek, Write};
     let io = |what: &str| {
         let w = what.to_string();
